@@ -43,17 +43,23 @@ func (fp *filesystemCachePersistor) getFilename(key string) string {
 
 func (fp *filesystemCachePersistor) Store(key string, reader io.Reader) (int64, error) {
 	filename := fp.getFilename(key)
-	var written int64
-	{
-		f, err := os.OpenFile(filename, os.O_CREATE|os.O_TRUNC|os.O_WRONLY, 0o600)
-		if err != nil {
-			return 0, err
-		}
-		defer f.Close()
-		written, err = io.Copy(f, reader)
-		if err != nil {
-			return written, err
-		}
+	// Write to a temporary file and publish it with an atomic rename: concurrent
+	// readers and writers of the same key then only ever see complete values.
+	f, err := os.CreateTemp(fp.root, filepath.Base(filename)+".*.tmp")
+	if err != nil {
+		return 0, err
+	}
+	tempName := f.Name()
+	written, err := io.Copy(f, reader)
+	if closeErr := f.Close(); err == nil {
+		err = closeErr
+	}
+	if err == nil {
+		err = os.Rename(tempName, filename)
+	}
+	if err != nil {
+		_ = os.Remove(tempName)
+		return written, err
 	}
 	return written, nil
 }
